@@ -100,8 +100,9 @@ def create_hamming_parity_submatrix(mu: int, extended: bool = False, dtype: torc
 
     # For extended Hamming code, add an overall parity check
     if extended:
-        # Add a row of all ones to the parity submatrix
-        parity_extension = torch.ones((k, 1), dtype=dtype, device=device)
+        # The extra bit is the overall parity of the codeword: each row of [I_k | P] has weight
+        # 1 + weight(P row), so the extension bit is 1 exactly when that weight is odd
+        parity_extension = ((1 + parity_submatrix.sum(dim=1, keepdim=True)) % 2).to(dtype)
         parity_submatrix = torch.cat([parity_submatrix, parity_extension], dim=1)
 
     return parity_submatrix
